@@ -29,6 +29,20 @@ def is_ptr(v):
     return isinstance(v, tuple) and len(v) == 3 and v[0] == 'ptr'
 
 
+class Mask:
+    """a 32-bit lane that is all-ones when cond holds and all-zeros otherwise (result of a SIMD comparison).  It supports no
+    arithmetic: it can only be moved (shuffles, bitcasts between equally sized vector types, phi/select) and tested for its sign bit"""
+
+    def __init__(self, cond):
+        self.cond = cond
+
+
+def is_raw(v):
+    """bit-pattern carriers produced by bitcasts: ('raw32', lane) / ('raw64', lo lane, hi lane); a lane is the z3 Real term of the
+    float whose bits occupy these 32 bits, or a Mask.  They are only moved around, never used arithmetically."""
+    return isinstance(v, tuple) and len(v) >= 2 and v[0] in ('raw32', 'raw64')
+
+
 class UFs:
     """Ackermannised uninterpreted real functions with ground axioms"""
 
@@ -312,6 +326,8 @@ class Exec:
             b[p[2]] = (v[1], 4)
             b[p[2] + 4] = (v[2], 4)
             return
+        if isinstance(v, tuple) and v and v[0] == 'raw32' and sz == 4:
+            v = v[1]                                         # the bits of a float stored through an i32 pointer: that float
         b = mem.setdefault(p[1], {})
         # kill overlapping cells
         for o in list(b.keys()):
@@ -336,6 +352,8 @@ class Exec:
                 break
         if same:
             return v0
+        if any(is_raw(v) or isinstance(v, Mask) for v in vals):
+            return self.merge_raw(conds_vals)
         r = None
         for c, v in reversed(conds_vals):
             if v is None:
@@ -352,6 +370,89 @@ class Exec:
             v = self.z(v)
             r = v if r is None else z3.If(c, v, r)
         return r
+
+    def merge_raw(self, conds_vals):
+        """ite over bit-pattern carriers (raw32/raw64/Mask), lane by lane; the integer constant 0 is the all-zero pattern"""
+        kind, n = None, None
+        for c, v in conds_vals:
+            if is_raw(v):
+                k, m = v[0], len(v) - 1
+            elif isinstance(v, Mask):
+                k, m = 'mask', 1
+            elif v is None or (isinstance(v, int) and not isinstance(v, bool) and v == 0):
+                continue
+            else:
+                raise NotEligible('merge of a bit-pattern value with an arithmetic value')
+            if kind not in (None, k):
+                raise NotEligible('merge of bit-pattern values of different widths')
+            kind, n = k, m
+        per = []
+        for c, v in conds_vals:
+            if v is None:
+                continue
+            per.append((c, [None] * n if isinstance(v, int) else [v] if isinstance(v, Mask) else list(v[1:])))
+        out = []
+        for i in range(n):
+            items = [(c, ls[i]) for c, ls in per]
+            if any(isinstance(x, Mask) for c, x in items):
+                if not all(x is None or isinstance(x, Mask) for c, x in items):
+                    raise NotEligible('merge of a comparison mask with a float lane')
+                r = None
+                for c, x in reversed(items):
+                    cnd = z3.BoolVal(False) if x is None else x.cond
+                    r = cnd if r is None else z3.If(c, cnd, r)
+                out.append(Mask(r))
+            else:
+                out.append(self.merge_val([(c, z3.RealVal(0) if x is None else x) for c, x in items]))
+        if kind == 'mask':
+            return out[0]
+        return (kind,) + tuple(out)
+
+    # ------------------------------------------------------------- bit patterns that are only moved (SIMD shuffles through other lane types)
+    def lanes32(self, v, ty):
+        """value v of type ty as a list of 32-bit lanes (z3 Real term = the bits of that float, Mask, None = undef)"""
+        ty = self.mod.resolve(ty)
+        k = ty[0]
+        if k == 'vector':
+            out = []
+            for x in v:
+                out += self.lanes32(x, ty[2])
+            return out
+        sz = self.mod.sizeof(ty)
+        if sz not in (4, 8):
+            raise NotEligible('bitcast of %r' % (ty,))
+        n = sz // 4
+        if v is None:
+            return [None] * n
+        if isinstance(v, Mask) and n == 1:
+            return [v]
+        if is_raw(v) and len(v) - 1 == n:
+            return list(v[1:])
+        if isinstance(v, int) and not isinstance(v, bool) and v == 0 and k == 'int':
+            return [z3.RealVal(0)] * n                       # all-zero bits are the bits of +0.0f
+        if k == 'float' and z3.is_expr(v):
+            return [v]
+        if k == 'double' and z3.is_expr(v) and z3.is_rational_value(v) and v.numerator_as_long() == 0:
+            return [z3.RealVal(0)] * 2
+        raise NotEligible('bitcast of an arithmetic %s value' % k)
+
+    def from_lanes32(self, lanes, ty):
+        ty = self.mod.resolve(ty)
+        k = ty[0]
+        if k == 'vector':
+            n = self.mod.sizeof(ty[2]) // 4
+            if n not in (1, 2):
+                raise NotEligible('bitcast to %r' % (ty,))
+            return [self.from_lanes32(lanes[i * n:(i + 1) * n], ty[2]) for i in range(ty[1])]
+        if k == 'float':
+            return lanes[0]                                  # a z3 term, a Mask (usable only by moves / sign tests) or None
+        if k == 'int' and ty[1] == 32:
+            return None if lanes[0] is None else ('raw32', lanes[0])
+        if (k == 'int' and ty[1] == 64) or k == 'double':
+            if lanes[0] is None and lanes[1] is None:
+                return None
+            return ('raw64', lanes[0], lanes[1])
+        raise NotEligible('bitcast to %r' % (ty,))
 
     @staticmethod
     def z(v):
@@ -539,6 +640,22 @@ class Exec:
             def g(x, y):
                 if x is None or y is None:
                     raise NotEligible('compare of undef')
+                if isinstance(x, tuple) and x and x[0] == 'bits':
+                    if isinstance(y, int) and y == 0 and pred in ('eq', 'ne'):
+                        anyb = z3.Or(*x[1])
+                        return z3.Not(anyb) if pred == 'eq' else anyb
+                    raise NotEligible('movemask result used other than compared with 0')
+                if is_raw(x) or isinstance(x, Mask):
+                    # sign-bit test of a 32-bit lane (movmskps / blendv idiom): x <s 0  or  x >s -1
+                    lane = x[1] if is_raw(x) and x[0] == 'raw32' else x if isinstance(x, Mask) else None
+                    if lane is None or not isinstance(y, int) or (pred, y) not in (('slt', 0), ('sgt', -1)):
+                        raise NotEligible('integer compare of a bit-pattern value')
+                    if isinstance(lane, Mask):
+                        neg = lane.cond
+                    else:
+                        self.ufs.used.add('sign bit of a float lane (interpreted: x < 0; there is no negative zero over the reals)')
+                        neg = lane < 0
+                    return neg if pred == 'slt' else z3.Not(neg)
                 r = f(self.z(x), self.z(y)) if not (isinstance(x, int) and isinstance(y, int)) else f(x, y)
                 return z3.BoolVal(r) if isinstance(r, bool) else r
             env[ins.res] = self.lift2(g, a, b)
@@ -547,6 +664,19 @@ class Exec:
             a, b = C(ins.ops[0], ins.ty), C(ins.ops[1], ins.ty)
             f = {'add': lambda x, y: x + y, 'sub': lambda x, y: x - y, 'mul': lambda x, y: x * y}[op]
             env[ins.res] = self.lift2(lambda x, y: f(x, y) if (isinstance(x, int) and isinstance(y, int)) else f(self.z(x), self.z(y)), a, b)
+            return
+        if op == 'lshr':
+            a, b = C(ins.ops[0], ins.ty), C(ins.ops[1], ins.ty)
+
+            def sh(x, y):
+                if is_raw(x) and x[0] == 'raw64' and isinstance(y, int) and y == 32:
+                    return ('raw64', x[2], z3.RealVal(0))    # high float lane moved down, zero bits above
+                if isinstance(x, int) and isinstance(y, int) and not isinstance(x, bool) and 0 <= y < 64:
+                    n = m.resolve(ins.ty)
+                    n = n[2][1] if n[0] == 'vector' else n[1]
+                    return (x & ((1 << n) - 1)) >> y
+                raise NotEligible('lshr on symbolic integers')
+            env[ins.res] = self.lift2(sh, a, b)
             return
         if op in ('and', 'or', 'xor'):
             t = m.resolve(ins.ty)
@@ -558,6 +688,26 @@ class Exec:
                 return
             if isinstance(a, int) and isinstance(b, int):
                 env[ins.res] = {'and': a & b, 'or': a | b, 'xor': a ^ b}[op]
+                return
+
+            def lane_op(x, y):
+                # lane masks with constant lanes (xyz0(): and with <-1,-1,-1,0>): x & ~0 = x, x & 0 = 0, x | 0 = x ^ 0 = x
+                if isinstance(x, int) and isinstance(y, int) and not isinstance(x, bool) and not isinstance(y, bool):
+                    return {'and': x & y, 'or': x | y, 'xor': x ^ y}[op]
+                if isinstance(x, int) and not isinstance(x, bool):
+                    x, y = y, x
+                if (is_raw(x) or isinstance(x, Mask)) and isinstance(y, int) and not isinstance(y, bool):
+                    if (op == 'and' and y == -1) or (op in ('or', 'xor') and y == 0):
+                        return x
+                    if op == 'and' and y == 0:
+                        return 0
+                    if op == 'and' and is_raw(x) and x[0] == 'raw64':
+                        halves = [(y & 0xffffffff), ((y >> 32) & 0xffffffff)]
+                        if all(h in (0, 0xffffffff) for h in halves):
+                            return ('raw64',) + tuple(x[1 + i] if h else z3.RealVal(0) for i, h in enumerate(halves))
+                raise NotEligible('bitwise op on symbolic integers')
+            if isinstance(a, list) and isinstance(b, list):
+                env[ins.res] = self.lift2(lane_op, a, b)
                 return
             raise NotEligible('bitwise op on symbolic integers')
         if op == 'select':
@@ -601,6 +751,12 @@ class Exec:
             v = C(ins.ops[0], ins.extra['src_ty'])
 
             def conv(x):
+                if isinstance(x, tuple) and x and x[0] == 'bits' and op == 'trunc':
+                    raise NotEligible('trunc of a movemask result')
+                if is_raw(x):
+                    if op == 'trunc' and x[0] == 'raw64' and m.resolve(ins.ty) == ('int', 32):
+                        return ('raw32', x[1])               # low half of two packed float lanes
+                    raise NotEligible(op + ' of a bit-pattern value')
                 if z3.is_expr(x) and z3.is_bool(x):
                     if m.resolve(ins.ty) == ('int', 1):
                         return x
@@ -622,13 +778,22 @@ class Exec:
             if st[0] == 'ptr' and dt[0] == 'ptr':
                 env[ins.res] = v
                 return
-            if st[0] == 'vector' and dt[0] == 'vector' and st[1] == dt[1] and m.sizeof(st[2]) == m.sizeof(dt[2]):
-                raise NotEligible('float<->int vector bitcast')
             if st == ('vector', 2, ('float',)) and dt in (('double',), ('int', 64)):
                 env[ins.res] = ('raw64', v[0], v[1])
                 return
             if dt == ('vector', 2, ('float',)) and isinstance(v, tuple) and v and v[0] == 'raw64':
                 env[ins.res] = [v[1], v[2]]
+                return
+            if st[0] == 'vector' and m.resolve(st[2]) == ('int', 1) and dt == ('int', st[1]):
+                # movmskps idiom: <N x i1> -> iN; the result can only be compared with 0 (see icmp)
+                env[ins.res] = ('bits', [self.z(x) for x in v])
+                return
+            if st[0] != 'ptr' and dt[0] != 'ptr' and m.sizeof(st) == m.sizeof(dt) and m.sizeof(st) % 4 == 0 and \
+                    (st[0] != 'vector' or m.sizeof(st[2]) in (4, 8)) and (dt[0] != 'vector' or m.sizeof(dt[2]) in (4, 8)):
+                # SIMD code moves float lanes through <2 x double> / <2 x i64> / <4 x i32> typed shuffles (movelh/movehl/unpack, ABI
+                # coercion): a bitcast between types of equal size is a pure relabelling of 32-bit lanes.  The relabelled value is a
+                # bit-pattern carrier (raw32/raw64/Mask): it can be moved, merged and cast back, any arithmetic use is not eligible.
+                env[ins.res] = self.from_lanes32(self.lanes32(v, st), dt)
                 return
             raise NotEligible('bitcast %r -> %r' % (st, dt))
         if op == 'alloca':
@@ -777,6 +942,20 @@ class Exec:
                 t = [(a[i] * b[i]) if (m_ >> (4 + i)) & 1 else z3.RealVal(0) for i in range(4)]
                 sm = (t[0] + t[1]) + (t[2] + t[3])
                 env[ins.res] = [sm if (m_ >> i) & 1 else z3.RealVal(0) for i in range(4)]
+                return
+            if short in ('sse.cmp.ss', 'sse.cmp.ps') and isinstance(args[2], int) and 0 <= args[2] <= 7:
+                # CMPSS/CMPPS imm8[2:0] (Intel SDM table 3-1) over the reals: no value is unordered.  The result lanes are comparison
+                # masks (class Mask): they can be moved and sign-tested (movmskps), nothing else.
+                tbl = {0: lambda x, y: x == y, 1: lambda x, y: x < y, 2: lambda x, y: x <= y, 3: lambda x, y: z3.BoolVal(False),
+                       4: lambda x, y: x != y, 5: lambda x, y: z3.Not(x < y), 6: lambda x, y: z3.Not(x <= y), 7: lambda x, y: z3.BoolVal(True)}
+                a, b = args[0], args[1]
+                lanes = [0] if short.endswith('.ss') else [0, 1, 2, 3]
+                r = list(a)
+                for i in lanes:
+                    if a[i] is None or b[i] is None or isinstance(a[i], Mask) or isinstance(b[i], Mask):
+                        raise NotEligible('compare of undef / mask lanes')
+                    r[i] = Mask(tbl[args[2]](a[i], b[i]))
+                env[ins.res] = r
                 return
             raise NotEligible('x86 intrinsic ' + short + ' has no real-arithmetic meaning here')
         base = re.sub(r'\.(f32|f64|v\d+f(32|64))$', '', name)
